@@ -349,6 +349,13 @@ class StopSemantics(Monitor):
                 q = ':stop-point'
                 if beyond and w.schd.is_stalled:
                     q += ':stalled-on-incomplete-task-beyond-it'
+                    if not w.spec.get('judge_stall_beyond_stop_point'):
+                        # this class is judged (and reported) in the one
+                        # workflow that is dedicated to it, so that the
+                        # others are explored to the end
+                        COUNTS.bump('stalled on an incomplete task beyond '
+                                    'the stop point (judged elsewhere)')
+                        return out
             out.append(self.viol(
                 'no-shutdown-with-nothing-left' + q,
                 f'nothing at or before the stop point ({self.SP}) is left '
